@@ -1244,6 +1244,9 @@ def run_scenario(sc: dict, *, keep_world: bool = False, spin_budget: int = 60_00
         out['iters'] = getattr(loop, 'iterations', 0)
     finally:
         _teardown(loop, w, wal_ctx)
+    if w.watch and not out.get('hang') and not realtime:
+        # the program goes on in a LATER event loop (asyncio.run() a second time) and looks at events it saw complete in the first one
+        out['second_loop'] = _second_loop_look(w)
     out.pop('_actor_tasks', None)
     out.pop('_main_task', None)
     out['trace'] = w.trace
@@ -1263,6 +1266,50 @@ def run_scenario(sc: dict, *, keep_world: bool = False, spin_budget: int = 60_00
     if out.get('hang') or sc.get('inject') or sc.get('stops'):
         globals()['_LOCK_DIRTY'] = True  # torn down mid-flight: the lock may have been left acquired
     return out
+
+
+def _second_loop_look(w, limit=4):
+    res = []
+    tags = [t for t in sorted(w.observed_complete) if t >= 0][:limit]
+    if not tags:
+        return res
+    loop2 = VLoop(spin_budget=20_000)
+    asyncio.set_event_loop(loop2)
+    try:
+
+        async def look():
+            for t in tags:
+                e = w.events[t]
+                r = {'ev': t, 'status': e.event_status}
+                try:
+                    sig = e.event_completed_signal
+                    r['sig'] = bool(sig is not None and sig.is_set())
+                    got = await asyncio.wait_for(_await_event(e), 1.0)
+                    r['await'] = 'returned' if got is e else 'other-object'
+                except asyncio.TimeoutError:
+                    r['await'] = 'never-returned'
+                except BaseException as ex:  # noqa
+                    r['await'] = type(ex).__name__
+                res.append(r)
+
+        try:
+            loop2.run_until_complete(look())
+        except Hang as e:
+            res.append({'ev': None, 'await': f'hang: {e}'})
+    finally:
+        try:
+            for t_ in asyncio.all_tasks(loop2):
+                t_.cancel()
+            loop2.run_until_complete(asyncio.sleep(0))
+        except BaseException:  # noqa
+            pass
+        loop2.close()
+        asyncio.set_event_loop(None)
+    return res
+
+
+async def _await_event(e):
+    return await e
 
 
 def _safe_snap(w, tag):
